@@ -1528,7 +1528,8 @@ def sanitizer_run(ctx, built) -> None:
     env["UBSAN_OPTIONS"] = "print_stacktrace=1:halt_on_error=0"
     env["PYTHONMALLOC"] = "malloc"           # every object allocation is visible to ASan (use after free, overflow)
     st, out = vlib.sh([vlib.PY, "drive.py"], cwd=d, env=env, timeout=900)
-    reports = [l for l in out.splitlines() if "ERROR: AddressSanitizer" in l or "runtime error:" in l]
+    # (the sanitizer build has no -DNDEBUG: the C asserts of lib-rt / generated code are active as well)
+    reports = [l for l in out.splitlines() if "ERROR: AddressSanitizer" in l or "runtime error:" in l or "Assertion `" in l]
     ctx.add("sanitizer_runs", 25 * 1000)
     if reports or "LITDONE" not in out:
         kind = re.sub(r"[^A-Za-z-]+", "-", (reports[0] if reports else f"status-{st}").split("AddressSanitizer:")[-1])[:60].strip("-")
@@ -1540,12 +1541,12 @@ def sanitizer_run(ctx, built) -> None:
                               "python -m mypyc c06dyn.py; LD_PRELOAD=libasan.so:libubsan.so PYTHONMALLOC=malloc python drive.py"})
     # positive control: the known NULL dec_ref in close() must show up as an ASan SEGV report
     st2, out2 = vlib.sh([vlib.PY, "drive_close.py"], cwd=d, env=env, timeout=120)
-    ctrl = "ERROR: AddressSanitizer" in out2
+    ctrl = "ERROR: AddressSanitizer" in out2 or "Assertion `" in out2
     ctx.cov["sanitizer"] = {"runtime": note, "reports": len(reports),
                             "positive_control_gen_close_detected": ctrl}
     if ctrl:
-        ctx.violation("gen-close-null-decref", "AddressSanitizer: SEGV in generator close() (known NULL dec_ref)",
-                      {"report": out2[out2.find("ERROR: AddressSanitizer"):][:2000]})
+        ctx.violation("gen-close-null-decref", "sanitizer/assert build: generator close() trips on the known NULL dec_ref",
+                      {"report": out2[-2000:]})
 
 
 def dynamic_monitor(ctx, tmp: str) -> None:
@@ -1662,7 +1663,7 @@ def run(ctx) -> None:
         t0 = time.time()
         dumps, status, failures, counters = run_dump(repo, cases, tmp, int(os.environ.get("VERIF_C06_PROCS", "8")), pretty=True,
                                                      timeout=170 if ctx.quick else 1700, chunk=6 if ctx.quick else 12,
-                                                     soft_deadline=time.time() + (95 if ctx.quick else 1500))
+                                                     soft_deadline=time.time() + (80 if ctx.quick else 1500))
         ctx.log(f"dumped {sum(s['funcs'] for s in status)} functions of {len(status)} programs in {time.time() - t0:.0f}s; idioms {counters}")
         for out, err in failures:
             if ctx.quick and "[timeout]" in err:
